@@ -191,6 +191,7 @@ static bool doCall(Inst &in, const JV &c, Obs &o)
     else if(e == "Chips") o.r = opn2_setNumChips(in.dev, (int)c.get("n", 1));
     else if(e == "Reset") opn2_reset(in.dev);
     else if(e == "Pcm") o.r = opn2_setRunAtPcmRate(in.dev, (int)c.get("v", 0));
+    else if(e == "Fam") opn2_setChipType(in.dev, (int)c.get("v", 0));      // chip family: 0 = OPN2, 1 = OPNA (rebuilds the chips)
     else if(e == "Lfo") opn2_setLfoEnabled(in.dev, (int)c.get("v", 0));
     else if(e == "Load") { std::vector<uint8_t> s = buildSong((int)c.get("song", 0)); o.r = opn2_openData(in.dev, s.data(), (unsigned long)s.size()); }
     else if(e == "Panic") opn2_panic(in.dev);
